@@ -11,7 +11,7 @@
 EXTENDS IOSem
 
 Res(ok, miss, unspec, newf, newd, newg, newgd) ==
-  [ok |-> ok, miss |-> miss, unspec |-> unspec, newf |-> newf, newd |-> newd, newg |-> newg, newgd |-> newgd]
+  [ok |-> ok, miss |-> miss, unspec |-> unspec, newf |-> newf, newd |-> newd, newg |-> newg, newgd |-> newgd, newvd |-> <<>>]
 
 HasMiss(f) == \E c \in 1..Len(f.cols) : \E r \in 1..Len(f.cols[c].cells) : f.cols[c].cells[r] = <<2>>
 
@@ -74,5 +74,10 @@ Judge(e, Fr, Gr) ==
          IF R.err \/ other.err THEN PlainU("unspec", TRUE)     \* Equals does not consult Err
          ELSE Plain((e.res = 1) = EqualsSem(R, other))
     [] e.op = "SliceObs" -> Plain(TRUE)
+    [] e.op = "Scribble" -> Plain(TRUE)      \* overwriting what View.Slice() returned; persistence is judged by Persist
+    [] e.op = "View" ->
+         \* a typed view shows exactly the column's cells in frame order (C09); it joins the family (C01)
+         IF R.err \/ ~HasCol(R, e.a.col) THEN PlainU("unspec", TRUE)
+         ELSE [Plain(e.vcells = ColOf(R, e.a.col).cells) EXCEPT !.newvd = <<e.vdig>>]
     [] OTHER -> JudgeIO(e, Fr, Gr)
 =============================================================================
